@@ -8,15 +8,17 @@ use crate::tape::Tape;
 pub const SIMPLE: &[&str] = &[
     "x", "y", "z", "foo", "bar", "counter", "total", "Tommy", "Gina", "tmp", "limit", "index", "result", "ünï", "Éclair",
     "λάμδα", "жук", "Midnight", "w", "acc", "naïve", "queue", "stack", "flag", "DOOM",
+    // a keyword or alias followed directly by a non-ASCII letter; words with an inner apostrophe
+    "noël", "isä", "años", "atö", "orë", "ma'am", "o'clock", "Upé",
 ];
 pub const PREFIXES: &[&str] = &["a", "an", "the", "my", "your", "our", "My", "The", "YOUR", "An", "A", "oUr"];
 pub const COMMON_WORDS: &[&str] = &[
     "heart", "dream", "life", "world", "night", "ünï", "fire", "Love", "soul", "hands", "times", "right", "top", "back",
-    "lies", "word", "song", "élan",
+    "lies", "word", "song", "élan", "o'clock", "rock'n'roll", "ma'am", "años", "isä", "Noël",
 ];
 pub const PROPER_WORDS: &[&str] = &[
     "Doctor", "Feelgood", "Johnny", "B", "Goode", "Black", "Sabbath", "Élan", "Vital", "Mister", "Crowley", "Lady", "Stardust",
-    "ZZ", "Topp", "Ωmega", "Жук",
+    "ZZ", "Topp", "Ωmega", "Жук", "O'Neil", "Noël", "Isä", "Itö",
 ];
 
 pub const FALLBACK: &[&str] = &[
@@ -30,7 +32,7 @@ pub fn check_pools() {
     }
     for w in SIMPLE.iter().chain(PROPER_WORDS.iter()) {
         assert!(!kw::is_keyword(w), "pool word {} is a keyword", w);
-        assert!(w.chars().all(|c| c.is_alphabetic()));
+        assert!(w.chars().all(|c| c.is_alphabetic() || c == '\'') && !w.starts_with('\'') && !w.ends_with('\''));
     }
     for w in PROPER_WORDS {
         assert!(w.chars().next().unwrap().is_uppercase());
